@@ -30,14 +30,53 @@ type kase struct {
 	Pkgs        []string
 	CompileErrs []string
 	InDriver    bool
+	// Targets are the objects clause 3 is applied to (the root object; every
+	// object of every package for the three-package cases). DriverPkgs: the
+	// packages of the unit that are linked into the driver.
+	Targets    []target
+	DriverPkgs map[string]bool
+	// HangSuspect: a foreign object refers to itself (generated under a short timeout).
+	HangSuspect bool
+}
+
+// target is one object whose Go encodings are validated against the emitted
+// definition of the same name in the document of its package.
+type target struct {
+	Pkg, Name string
+}
+
+// driverKey is the registry prefix of a package of the unit.
+func (c *kase) driverKey(pkg string) string {
+	if pkg == gschema.Pkg {
+		return c.Unit.ID
+	}
+	return c.Unit.ID + "~" + pkg
+}
+
+// rooted is the abstract schema with the named object first (the root of the
+// reference validators and of the document alphabet).
+func (c *kase) rooted(name string) gschema.Schema {
+	if c.Schema.Objs[0].Name == name {
+		return c.Schema
+	}
+	var objs []gschema.Obj
+	for _, o := range c.Schema.Objs {
+		if o.Name == name {
+			objs = append([]gschema.Obj{o}, objs...)
+		} else {
+			objs = append(objs, o)
+		}
+	}
+	return gschema.Schema{Objs: objs}
 }
 
 func (c *kase) Witness() string  { return c.Format + " :: " + c.Schema.String() }
 func (c *kase) RootType() string { return c.Unit.ID + "." + c.Schema.Objs[0].Name }
 func (c *kase) TwoPkg() bool     { return strings.HasSuffix(c.Format, "+q") }
+func (c *kase) ThreePkg() bool   { return strings.HasSuffix(c.Format, "+qr") }
 func (c *kase) Variant() bool    { return strings.HasSuffix(c.Format, boundsVariant) }
 func (c *kase) BaseFormat() string {
-	return strings.TrimSuffix(strings.TrimSuffix(c.Format, "+q"), boundsVariant)
+	return strings.TrimSuffix(strings.TrimSuffix(strings.TrimSuffix(c.Format, "+qr"), "+q"), boundsVariant)
 }
 
 // boundsVariant marks a rendering in which the numeric constraints of grammar
@@ -46,7 +85,7 @@ func (c *kase) BaseFormat() string {
 // operators of the IR occur in the space.
 const boundsVariant = "(>,<=)"
 
-var allFormats = []string{"jsonschema", "openapi", "cue", "jsonschema" + boundsVariant, "openapi" + boundsVariant, "cue" + boundsVariant, "openapi+q", "cue+q"}
+var allFormats = []string{"jsonschema", "openapi", "cue", "jsonschema" + boundsVariant, "openapi" + boundsVariant, "cue" + boundsVariant, "openapi+q", "cue+q", "openapi+qr", "cue+qr"}
 
 func formatRank(f string) int {
 	for i, x := range allFormats {
@@ -74,6 +113,15 @@ func (c *kase) Parents() []string {
 				break
 			}
 			out = append(out, f+boundsVariant+" :: "+c.Schema.String())
+		}
+	}
+	if c.ThreePkg() {
+		out = append(out, c.BaseFormat()+" :: "+c.Schema.String(), c.BaseFormat()+"+q :: "+c.Schema.String())
+		for _, r := range c.Schema.Reductions() {
+			out = append(out, "openapi+qr :: "+r.String(), "cue+qr :: "+r.String())
+		}
+		if c.Format == "cue+qr" {
+			out = append(out, "openapi+qr :: "+c.Schema.String())
 		}
 	}
 	if c.TwoPkg() {
@@ -160,6 +208,178 @@ func twoPackageSchemas() []gschema.Schema {
 	return out
 }
 
+// ---- three packages: p and q both refer to the same objects of r ---------------------------------
+
+// place3 decides where an object lives in a three-package rendering: the
+// support objects and the objects called R<Upper>… in r, the objects called
+// Q<Upper>… in q, the rest (Root) in p. Names are kept.
+func place3(name string) string {
+	switch name {
+	case "S", "T", "E", "N", "A", "K", "P":
+		return "r"
+	}
+	if len(name) > 1 && name[1] >= 'A' && name[1] <= 'Z' {
+		switch name[0] {
+		case 'R':
+			return "r"
+		case 'Q':
+			return "q"
+		}
+	}
+	return "p"
+}
+
+// threePackageSchemas: p.Root and q.QX both refer to the same object(s) of r -
+// a struct, an enum, a constrained struct, a chain r.RA -> r.RB, in field /
+// array / map positions - plus p referring to q.QX as well, and a foreign
+// object that refers to itself.
+func threePackageSchemas() []gschema.Schema {
+	one := func(name string, req bool, t gschema.Term) gschema.Obj {
+		return gschema.Obj{Name: name, T: irgen.Struct1(map[string]string{"Root": "f", "QX": "h"}[name], req, t)}
+	}
+	return []gschema.Schema{
+		gschema.WithSupport(one("Root", true, ref("S")), one("QX", true, ref("S"))),
+		gschema.WithSupport(one("Root", false, irgen.Array(ref("S"))), one("QX", true, ref("S"))),
+		gschema.WithSupport(one("Root", false, irgen.Map(ref("E"))), one("QX", true, irgen.Array(ref("E")))),
+		gschema.WithSupport(one("Root", true, ref("E")), one("QX", false, ref("E"))),
+		gschema.WithSupport(one("Root", true, ref("P")), one("QX", false, irgen.Array(ref("P")))),
+		gschema.WithSupport(one("Root", true, ref("RA")), one("QX", false, irgen.Array(ref("RA"))),
+			gschema.Obj{Name: "RA", T: irgen.Struct1("a", true, ref("RB"))}, gschema.Obj{Name: "RB", T: irgen.Struct1("b", false, irgen.S("string"))}),
+		gschema.WithSupport(one("Root", false, irgen.Map(ref("RA"))), one("QX", true, ref("RB")),
+			gschema.Obj{Name: "RA", T: irgen.Struct1("a", false, irgen.Array(ref("RB")))}, gschema.Obj{Name: "RB", T: irgen.Struct1("b", true, ref("E"))}),
+		gschema.WithSupport(gschema.Obj{Name: "Root", T: irgen.StructN([]irgen.Field{{Name: "f", Required: true}, {Name: "g", Required: false}}, []gschema.Term{ref("S"), ref("QX")})},
+			one("QX", true, ref("S"))),
+		// a foreign object that refers to itself
+		gschema.WithSupport(one("Root", false, ref("RNode")), one("QX", false, ref("RNode")),
+			gschema.Obj{Name: "RNode", T: irgen.StructN([]irgen.Field{{Name: "v", Required: true}, {Name: "next", Required: false}}, []gschema.Term{irgen.S("string"), ref("RNode")})}),
+	}
+}
+
+// selfRefForeign: an object outside p refers to itself.
+func selfRefForeign(s gschema.Schema) bool {
+	for _, o := range s.Objs {
+		if place3(o.Name) == "p" {
+			continue
+		}
+		found := false
+		var walk func(t gschema.Term)
+		walk = func(t gschema.Term) {
+			if t.K == "ref" && t.A == gschema.Pkg+"."+o.Name {
+				found = true
+			}
+			for _, x := range t.Sub {
+				walk(x)
+			}
+		}
+		walk(o.T)
+		if found {
+			return true
+		}
+	}
+	return false
+}
+
+func renderThree(s gschema.Schema, format string) (map[string]string, string, error) {
+	r, err := s.Render(format)
+	if err != nil {
+		return nil, "", err
+	}
+	switch format {
+	case "openapi":
+		return renderThreeOpenAPI(r.Main)
+	case "cue":
+		return renderThreeCUE(r.Main)
+	}
+	return nil, "", fmt.Errorf("format cannot express cross-package references")
+}
+
+var threePkgs = []string{"p", "q", "r"}
+
+func renderThreeOpenAPI(main string) (map[string]string, string, error) {
+	v, err := decodeJSON(main)
+	if err != nil {
+		return nil, "", err
+	}
+	comps := v.(map[string]any)["components"].(map[string]any)["schemas"].(map[string]any)
+	const prefix = "#/components/schemas/"
+	files := map[string]string{}
+	var in []string
+	for _, pkg := range threePkgs {
+		out := map[string]any{}
+		for name, def := range comps {
+			if place3(name) != pkg {
+				continue
+			}
+			out[name] = rewriteRefs(def, func(r string) string {
+				if tp := place3(strings.TrimPrefix(r, prefix)); tp != pkg {
+					return tp + ".json" + r
+				}
+				return r
+			})
+		}
+		b, _ := json.MarshalIndent(map[string]any{
+			"openapi": "3.0.0", "info": map[string]any{"title": pkg, "version": "1"}, "paths": map[string]any{},
+			"components": map[string]any{"schemas": out},
+		}, "", " ")
+		files[pkg+".json"] = string(b)
+		in = append(in, fmt.Sprintf("- openapi: {path: '%%DIR%%/%s.json', package: %s}", pkg, pkg))
+	}
+	return files, strings.Join(in, "\n  "), nil
+}
+
+func renderThreeCUE(main string) (map[string]string, string, error) {
+	lines := map[string][]string{}
+	uses := map[string]map[string]bool{"p": {}, "q": {}, "r": {}}
+	for _, l := range strings.Split(main, "\n") {
+		i := strings.Index(l, ": ")
+		if i <= 0 || strings.HasPrefix(l, "package") || strings.HasPrefix(l, "import") {
+			continue
+		}
+		name := l[:i]
+		pkg := place3(name)
+		segs := strings.Split(l[i+2:], `"`)
+		for k := 0; k < len(segs); k += 2 {
+			segs[k] = reIdent.ReplaceAllStringFunc(segs[k], func(id string) string {
+				if tp := place3(id); tp != pkg && tp != "p" {
+					uses[pkg][tp] = true
+					return tp + "." + id
+				}
+				return id
+			})
+		}
+		lines[pkg] = append(lines[pkg], name+": "+strings.Join(segs, `"`))
+	}
+	files := map[string]string{}
+	var in []string
+	for _, pkg := range threePkgs {
+		body := strings.Join(lines[pkg], "\n") + "\n"
+		var imports []string
+		for tp := range uses[pkg] {
+			imports = append(imports, "example.com/"+tp)
+		}
+		if strings.Contains(body, "strings.") {
+			imports = append(imports, "strings")
+		}
+		sort.Strings(imports)
+		head := "package " + pkg + "\n\n"
+		for _, im := range imports {
+			head += fmt.Sprintf("import %q\n", im)
+		}
+		if len(imports) > 0 {
+			head += "\n"
+		}
+		files[pkg+"/schema.cue"] = head + body
+		var libs []string
+		for _, tp := range threePkgs {
+			if tp != pkg && pkg != "r" && tp != "p" {
+				libs = append(libs, fmt.Sprintf("'%%DIR%%/%s:example.com/%s'", tp, tp))
+			}
+		}
+		in = append(in, fmt.Sprintf("- cue: {entrypoint: '%%DIR%%/%s', cue_imports: [%s]}", pkg, strings.Join(libs, ", ")))
+	}
+	return files, strings.Join(in, "\n  "), nil
+}
+
 // buildCases enumerates the complete case list of the tier.
 func buildCases(thorough bool) (cases []*kase, schemas []gschema.Schema, skipped map[string]int) {
 	skipped = map[string]int{}
@@ -181,7 +401,26 @@ func buildCases(thorough bool) (cases []*kase, schemas []gschema.Schema, skipped
 	for _, s := range twoPackageSchemas() {
 		two[add(s)] = true
 	}
+	three := map[int]bool{}
+	for _, s := range threePackageSchemas() {
+		three[add(s)] = true
+	}
 	for i, s := range schemas {
+		if three[i] {
+			for _, f := range []string{"openapi+qr", "cue+qr"} {
+				files, in, err := renderThree(s, strings.TrimSuffix(f, "+qr"))
+				if err != nil {
+					skipped[f]++
+					continue
+				}
+				u := genrun.Unit{ID: fmt.Sprintf("s%04d%st", i, f[:1]), Files: files, InputYAML: in}
+				c := &kase{Index: i, Schema: s, Format: f, Unit: u, Pkgs: threePkgs, HangSuspect: selfRefForeign(s)}
+				for _, o := range s.Objs {
+					c.Targets = append(c.Targets, target{Pkg: place3(o.Name), Name: o.Name})
+				}
+				cases = append(cases, c)
+			}
+		}
 		if i < nSingle {
 			for _, f := range gschema.Formats {
 				r, err := s.Render(f)
@@ -214,6 +453,10 @@ func buildCases(thorough bool) (cases []*kase, schemas []gschema.Schema, skipped
 		}
 	}
 	for _, c := range cases {
+		if c.Targets == nil {
+			c.Targets = []target{{Pkg: gschema.Pkg, Name: c.Schema.Objs[0].Name}}
+		}
+		c.DriverPkgs = map[string]bool{}
 		c.Unit.Types = true
 		// the strict unmarshaller is switched on as in C01: without it the generated
 		// Go of every scalar union fails to compile (unused import), which would
